@@ -1,11 +1,16 @@
 package main
 
 import (
+	"context"
+	"errors"
 	"fmt"
+	"hash/fnv"
 	"math/rand"
 	"strconv"
+	"time"
 
 	xmpp "gosrc.io/xmpp"
+	"gosrc.io/xmpp/stanza"
 )
 
 // C19: backoff durations (stateful sequence and per-attempt query) against min(cap, base*factor^n).
@@ -13,7 +18,95 @@ type c19 struct{}
 
 func init() { register("C19", c19{}) }
 
+// smClient is a StreamClient whose Resume fails a given number of times with a transient error.
+type smClient struct {
+	fails  int
+	starts []time.Time
+	ends   []time.Time
+}
+
+func (f *smClient) Connect() error { return nil }
+func (f *smClient) Resume() error {
+	f.starts = append(f.starts, time.Now())
+	defer func() { f.ends = append(f.ends, time.Now()) }()
+	if len(f.starts) <= f.fails {
+		return xmpp.NewConnError(errors.New("harness: transient failure"), false)
+	}
+	return nil
+}
+func (f *smClient) Send(stanza.Packet) error { return nil }
+func (f *smClient) SendIQ(context.Context, *stanza.IQ) (chan stanza.IQ, error) {
+	return nil, errors.New("not connected")
+}
+func (f *smClient) SendRaw(string) error          { return nil }
+func (f *smClient) Disconnect() error             { return nil }
+func (f *smClient) SetHandler(xmpp.EventHandler) {}
+
+// smBounds: min(cap, base*2^n) ms with the package defaults (checked against the Lean model by the driver).
+func smBound(n int) int {
+	d := 20
+	for i := 0; i < n && d < 180000; i++ {
+		d *= 2
+	}
+	if d > 180000 {
+		d = 180000
+	}
+	return d
+}
+
+// execSupervisor runs the real retry loop of StreamManager.resume against a client that fails k times. The global
+// math/rand source is seeded, the draws the loop must make (rand.Intn(bound_n)) are taken once from that seed,
+// the source is seeded again and the loop runs: the n-th wait has to be the n-th draw.
+func execSupervisor(c Case) []string {
+	k := len(c.Ops)
+	h := fnv.New64a()
+	h.Write([]byte(c.ID))
+	seed := int64(h.Sum64() >> 1)
+	var draws []int
+	for ; ; seed++ {
+		rand.Seed(seed)
+		draws = draws[:0]
+		sum := 0
+		for n := 0; n < k; n++ {
+			draws = append(draws, rand.Intn(smBound(n)))
+			sum += draws[n]
+		}
+		// a seed whose last draw is far above the first bound (so that a loop that does not advance is seen) and
+		// whose total sleeping time stays small
+		if sum <= 900 && (k < 3 || draws[k-1] >= 3*smBound(0)) {
+			break
+		}
+	}
+	rand.Seed(seed)
+	fc := &smClient{fails: k}
+	sm := xmpp.NewStreamManager(fc, nil)
+	done := make(chan error, 1)
+	go func() { done <- xmpp.VerifStreamManagerResume(sm) }()
+	select {
+	case <-done:
+	case <-time.After(20 * time.Second):
+		obs := make([]string, k)
+		for i := range obs {
+			obs[i] = "hang"
+		}
+		return obs
+	}
+	obs := make([]string, k)
+	for n := 0; n < k; n++ {
+		if n+1 >= len(fc.starts) {
+			obs[n] = "missing-attempt"
+			continue
+		}
+		gap := fc.starts[n+1].Sub(fc.ends[n])
+		obs[n] = fmt.Sprintf("%d %d %d", int64(gap), int64(draws[n])*1000000, int64(smBound(n))*1000000)
+	}
+	return obs
+}
+
 func (c19) Exec(c Case) []string {
+	if len(c.Ops) > 0 && c.Ops[0][0] == "smwait" {
+		return execSupervisor(c)
+	}
 	b, _ := strconv.Atoi(c.Variant[0])
 	f, _ := strconv.Atoi(c.Variant[1])
 	cp, _ := strconv.Atoi(c.Variant[2])
@@ -109,6 +202,19 @@ func (c19) Generate(rng *rand.Rand, tier string, st *Stats) []Case {
 			st.Inc("cfg_jitter")
 		}
 		mk(fmt.Sprintf("rnd%d", i), b, f, cp, nj, ops)
+	}
+	// the real reconnection loop of the StreamManager: k consecutive failed attempts of one loss
+	ks := []int{1, 3, 6}
+	if tier == "thorough" {
+		ks = []int{1, 2, 3, 4, 5, 6, 7, 8, 6, 6}
+	}
+	for i, k := range ks {
+		var ops [][]string
+		for j := 0; j < k; j++ {
+			ops = append(ops, []string{"smwait"})
+		}
+		mk(fmt.Sprintf("sm-%d-%d", i, k), 0, 0, 0, false, ops)
+		st.Add("supervisor_waits", k)
 	}
 	// region of the recorded finding F-19b: cap (ms) * 10^6 does not fit int64; powers of two only (exact float64)
 	for i, cp := range []int{1 << 44, 1 << 50, 1 << 62} {
